@@ -466,8 +466,14 @@ pub fn observe_root(tables: &mut Tables, rep: &mut Replica, full: bool, root: Op
     let inconf: Vec<String> = rep.melda.in_conflict().iter().map(|o| tok(o)).collect();
     // --- stage
     let staging = rep.melda.has_staging();
+    let mut stageobjs: Vec<String> = vec![];
     let stage = match rep.melda.stage() {
-        Ok(Some(v)) => stage_digest(&v),
+        Ok(Some(v)) => {
+            if let Some(o) = v.get("o").and_then(|o| o.as_object()) {
+                stageobjs = o.keys().cloned().collect();
+            }
+            stage_digest(&v)
+        }
         Ok(None) => String::new(),
         Err(e) => format!("ERR:{}", tok(&e.to_string())),
     };
@@ -492,7 +498,7 @@ pub fn observe_root(tables: &mut Tables, rep: &mut Replica, full: bool, root: Op
         "items": item_toks, "status": status, "heads": heads, "deltas": deltas,
         "objects": objects.iter().map(|o| tok(o)).collect::<Vec<_>>(),
         "trees": trees, "winner": winner, "confl": confl, "inconf": inconf,
-        "staging": staging, "stage": stage, "doc": doc, "rd0": rd0, "full": full, "vals": vals, "orders": orders,
+        "staging": staging, "stage": stage, "stageobjs": stageobjs, "doc": doc, "rd0": rd0, "full": full, "vals": vals, "orders": orders,
     })
 }
 
